@@ -153,12 +153,12 @@ def events_for(root_is_loader, deep=False):
         for t in targets:
             ev += [('ctor', t, 0), ('ctor', t, 1), ('mctor', t, 0)]
             if t != 'R':
-                ev += [('ctorsame', t, 1)]
+                ev += [('ctorsame', t, 0), ('ctorsame', t, 1)]
     else:
         for t in targets:
             ev += [('repr', t, 0), ('repr', t, 1), ('mrepr', t, 0)]
             if t != 'R':
-                ev += [('reprsame', t, 1)]
+                ev += [('reprsame', t, 0), ('reprsame', t, 1)]
     for t in targets:
         ev += [('impl', t, 0), ('impl', t, 1)]
         if not deep:
